@@ -59,7 +59,7 @@ def _outcome(exc):
     return type(exc).__name__
 
 
-async def do_step(inv, step, loop):
+async def do_step(inv, step, loop, peer=None):
     """Execute one API step; returns a JSON-able result value."""
     g = env.goodwe()
     op = step[0]
@@ -80,6 +80,9 @@ async def do_step(inv, step, loop):
     if op == "wsetting":           # public: write_setting("modbus-<reg>", v)
         await inv.write_setting(f"modbus-{step[1]}", step[2])
         return {}
+    if op == "rawcmd":             # public: send_command(bytes) with the default validator
+        resp = await inv.send_command(bytes.fromhex(step[1]))
+        return {"raw": resp.raw_data.hex()}
     if op == "close":
         await inv._protocol.close()
         return {}
@@ -88,6 +91,16 @@ async def do_step(inv, step, loop):
         return {}
     if op == "sleep":
         await asyncio.sleep(step[1])
+        return {}
+    if op == "peerdrop":           # the peer drops every connection / socket it holds (idle connection loss)
+        loop.ev("peerdrop", peer.owner)
+        for s_ in list(peer.socks):
+            if s_.type & 0xF == 1:
+                peer._drop_sock(s_)
+            else:
+                peer.send_error(s_, 111, 0, 0)
+        await asyncio.sleep(0)
+        await asyncio.sleep(0)
         return {}
     if op == "api":
         r = await getattr(inv, step[1])(*step[2:])
@@ -160,11 +173,16 @@ def run_scenario(sc, peer_factory=None, inv_factory=None, quiesce=True) -> Run:
                     rec = {"id": cid, "seg": seg_i, "task": ti, "idx": si, "step": step, "t0": round(loop.time(), 9)}
                     loop.ev("call", cid, ti, step[0])
                     try:
-                        rec["result"] = await do_step(inv, step, loop)
+                        rec["result"] = await do_step(inv, step, loop, peer)
                         rec["outcome"] = "ok"
-                    except asyncio.CancelledError as e:      # must never escape a public coroutine
+                    except asyncio.CancelledError as e:      # must never escape a public coroutine (unless cancel_at)
                         rec["outcome"] = "CancelledError"
                         rec["msg"] = str(e)
+                        if task.get("cancel_at") is not None:
+                            rec["t1"] = round(loop.time(), 9)
+                            loop.ev("ret", cid, ti, rec["outcome"])
+                            run.calls.append(rec)
+                            raise
                     except Exception as e:                    # noqa
                         rec["outcome"] = type(e).__name__
                         rec["msg"] = str(getattr(e, "message", "") or e)[:300]
@@ -184,9 +202,15 @@ def run_scenario(sc, peer_factory=None, inv_factory=None, quiesce=True) -> Run:
 
             async def main():
                 ts = [asyncio.ensure_future(task_main(i, t)) for i, t in enumerate(tasks)]
-                await asyncio.gather(*ts)
+                for i, t in enumerate(tasks):
+                    if t.get("cancel_at") is not None:       # the caller's own task is cancelled from outside
+                        loop.call_later(t["cancel_at"], lambda tk=ts[i], k=i: (loop.ev("cancel", k), tk.cancel()))
+                await asyncio.gather(*ts, return_exceptions=True)
                 await asyncio.sleep(0)
                 await asyncio.sleep(0)
+                if sc.get("gc"):
+                    gc.collect()        # surfaces 'exception was never retrieved' through the loop's handler
+                    await asyncio.sleep(0)
 
             try:
                 loop.run_until_complete(main())
